@@ -880,6 +880,11 @@ func runC04(r *rt.Runner) {
 			c04Check(c, cell.Bundle, "iso:"+cell.ID, "isolation")
 		})
 	}
+	// property names that a case library would spell differently, in every container position
+	r.Do("naming/containers", func(c *rt.C) {
+		b := namingBundle()
+		c04Check(c, b, "naming/containers", "naming-stress")
+	})
 	for b := 0; b < r.Scale(600, 20000); b++ {
 		r.Do(fmt.Sprintf("rules/%d", b), func(c *rt.C) {
 			g := &j5Gen{rng: c.Rand()}
@@ -913,4 +918,17 @@ func runC04(r *rt.Runner) {
 			c04Check(c, bundle, fmt.Sprintf("random:%d", b), "random-bundle")
 		})
 	}
+}
+
+// namingBundle: property names that a case library would spell differently, in every container position.
+func namingBundle() *jBundle {
+	names := append([]string{"ipv4addrs", "userIDs", "apiURLs", "lineItems2go"}, c02StressNames...)
+	var fields []*jF
+	for i, n := range names {
+		t := []*jT{tArr(tScalar(kString)), tMap(tInt("INT32")), tArr(tRef(kObject, "Leaf", "iso.v1.Leaf")), tArr(tRef(kEnum, "Color", "iso.v1.Color")), tScalar(kString), tMap(tRef(kObject, "Leaf", "iso.v1.Leaf")), tRef(kObject, "Leaf", "iso.v1.Leaf"), tArr(tKeyF("id62"))}[i%8]
+		fields = append(fields, fld(n, t))
+	}
+	return elemsBundle(objDecl("Named", fields...), objDecl("Leaf", fld("name", tScalar(kString))), enumDecl("Color", "RED", "GREEN"),
+		&jElem{Decl: &jDecl{Kind: kOneof, Name: "NamedChoice", Fields: []*jF{fld("vendorSKU", &jT{Kind: kObject, InlineName: "Vendor", Inline: &jDecl{Kind: kObject, Fields: []*jF{fld("eTag", tScalar(kString))}}}), fld("x509Cert", tRef(kObject, "Leaf", "iso.v1.Leaf"))}}},
+		&jElem{Service: &jService{Name: "Named", BasePath: "/iso/v1", Methods: []*jMethod{{Name: "GetNamed", HTTPMethod: "GET", Path: "/named/:userID", Req: []*jF{fld("userID", tKeyF("id62")), fld("apiURLPrefix", tScalar(kString))}, HasRes: true, Res: []*jF{fld("oAuth2Token", tScalar(kString))}}}}})
 }
